@@ -18,10 +18,12 @@ def _r(rng, lo, hi, nd=4):
     return round(rng.uniform(lo, hi), nd)
 
 
-def random_pump_curve(rng, npts=None):
-    """1-, 2- or 3-point head curve (flow m3/s, head m), EPANET style (first point of 2-/3-point at or near zero flow)"""
+def random_pump_curve(rng, npts=None, zero_start=None):
+    """1-, 2-, 3- or multi-point (4-6) head curve (flow m3/s, head m).  3+-point curves follow a power law H = h0 - b*Q^c
+    (multi-point ones optionally with noise, so that the fit is a genuine least-squares fit); their FIRST point is at zero
+    flow (EPANET style) or, `zero_start=False`, at a positive flow."""
     if npts is None:
-        npts = rng.choice([1, 2, 3])
+        npts = rng.choice([1, 2, 3, 3, 4, 5, 6])
     h0 = _r(rng, 25, 70, 2)
     q1 = _r(rng, 0.01, 0.08, 4)
     if npts == 1:
@@ -29,14 +31,27 @@ def random_pump_curve(rng, npts=None):
     if npts == 2:
         q0 = 0.0 if rng.random() < 0.6 else _r(rng, 0.002, 0.01, 4)
         return [(q0, h0), (round(q0 + q1, 4), round(h0 * rng.uniform(0.3, 0.8), 2))]
-    # three points, decreasing; concave (C > 1) mostly, convex (C < 1) sometimes
-    q2 = round(q1 * rng.uniform(1.6, 2.4), 4)
+    # three or more points, decreasing; concave (C > 1) mostly, convex (C < 1) sometimes
+    qmax = round(q1 * rng.uniform(1.6, 2.4), 4)
     if rng.random() < 0.75:
         c = rng.uniform(1.3, 2.6)
     else:
         c = rng.uniform(0.6, 0.95)
-    b = h0 * rng.uniform(0.5, 0.9) / (q2 ** c)
-    return [(0.0, h0), (q1, round(h0 - b * q1 ** c, 3)), (q2, round(h0 - b * q2 ** c, 3))]
+    b = h0 * rng.uniform(0.5, 0.9) / (qmax ** c)
+    if zero_start is None:
+        zero_start = rng.random() < 0.6
+    for _ in range(20):
+        qa = 0.0 if zero_start else round(rng.uniform(0.08, 0.35) * qmax, 4)
+        if npts == 3:
+            qs = [qa, round(max(q1, qa + 0.15 * qmax), 4) if q1 < qmax * 0.9 else round((qa + qmax) / 2, 4), qmax]
+            noise = 0.0
+        else:
+            qs = sorted([qa] + [round(rng.uniform(qa + 0.08 * qmax, 0.95 * qmax), 4) for _ in range(npts - 2)] + [qmax])
+            noise = rng.choice([0.0, 0.0, 0.2])
+        pts = [(q, round(h0 - b * q ** c + rng.uniform(-noise, noise), 3)) for q in qs]
+        if all(pts[i + 1][0] - pts[i][0] >= 0.04 * qmax and pts[i][1] - pts[i + 1][1] >= 0.3 for i in range(len(pts) - 1)) and pts[-1][1] > 0.5:
+            return pts
+    return [(0.0, h0), (round(qmax / 2, 4), round(h0 - b * (qmax / 2) ** c, 3)), (qmax, round(h0 - b * qmax ** c, 3))]
 
 
 def random_network(rng, quick=True, force=None):
@@ -316,7 +331,7 @@ def spec_signature(spec):
 
 # ----------------------------------------------------------------------------- directed scenarios
 
-SCENARIOS = ["psv", "prv", "fcv", "tcv", "pump_shutoff", "cv_reverse", "power_pump", "pump_curves", "cv_htol"]
+SCENARIOS = ["psv", "prv", "fcv", "tcv", "pump_shutoff", "cv_reverse", "power_pump", "pump_curves", "cv_htol", "pump_points"]
 
 
 def _opts(rng, **kw):
@@ -371,7 +386,7 @@ def scenario_network(rng, name, variant=0):
     elif name == "pump_shutoff":
         # R0 -pump-> J -pipe-> R1 with R1 around the pump's shut-off head
         npts = rng.choice([1, 2, 3])
-        curves["c1"] = random_pump_curve(rng, npts)
+        curves["c1"] = random_pump_curve(rng, npts, zero_start=True)
         h0 = curves["c1"][0][1] * (4.0 / 3.0 if npts == 1 else 1.0)  # shut-off head (2-point: of the straight line if q0 = 0)
         off = rng.choice([0.0000762, -0.0000762, 0.00014, -0.5, -3.0, 0.5, 2.0, -0.01])
         nodes = [{"name": "R0", "type": "reservoir", "head": 20.0, "head_pattern": None},
@@ -379,6 +394,23 @@ def scenario_network(rng, name, variant=0):
                  _junc("J0", 5.0, rng.choice([0.0, 0.0, 0.001]))]
         links = [{"name": "PU1", "type": "pump", "start": "R0", "end": "J0", "pump_type": "HEAD", "curve": "c1", "initial_status": "OPEN"},
                  _pipe("P1", "J0", "R1", L=100.0, d=0.3)]
+    elif name == "pump_points":
+        # R0 -pump-> J0 -pipe-> J1: the demand visits the flow of every curve point (and flows between them), so the reported
+        # (flow, head gain) of the open pump must BE the curve points; 3-point and multi-point curves, first point at Q > 0 mostly
+        npts = [3, 4, 3, 5, 6, 3][variant % 6] if variant else rng.choice([3, 3, 4, 5])
+        pts = random_pump_curve(rng, npts, zero_start=(rng.random() < 0.25))
+        curves["c1"] = pts
+        qs = [q for q, h in pts if q > 0]
+        qs += [round((a + b) / 2, 5) for a, b in zip(qs, qs[1:])]
+        base = qs[0]
+        pats["dq"] = [round(q / base, 9) for q in qs]
+        opts = _opts(rng, demand_model="DD")
+        opts.update({"hydraulic_timestep": 3600, "pattern_timestep": 3600, "report_timestep": 3600, "pattern_start": 0,
+                     "duration": 3600 * (len(qs) - 1)})
+        nodes = [{"name": "R0", "type": "reservoir", "head": _r(rng, 5, 30, 1), "head_pattern": None},
+                 _junc("J0", 0.0, base, "dq"), _junc("J1", 0.0)]
+        links = [{"name": "PU1", "type": "pump", "start": "R0", "end": "J0", "pump_type": "HEAD", "curve": "c1", "initial_status": "OPEN"},
+                 _pipe("P1", "J0", "J1", L=10.0, d=0.3)]
     elif name == "cv_htol":
         # R0 -CV pipe-> J0 -pipe-> R1 with R1 within / just outside the head tolerance above R0: only the FLOW test can close the CV
         off = rng.choice([0.0001, 0.00005, 0.00014, 0.00016, 0.001, -0.0001, 0.00012])
@@ -402,7 +434,7 @@ def scenario_network(rng, name, variant=0):
                  _pipe("P1", "J0", "J1"), _pipe("P2", "J1", "T0", L=300.0),
                  {"name": "PW2", "type": "pump", "start": "T0", "end": "J1", "pump_type": "POWER", "power": _r(rng, 500, 3000, 0), "initial_status": rng.choice(["OPEN", "CLOSED"])}]
     else:  # pump_curves: three head pumps with 1-, 2-, 3-point curves in parallel / series
-        for i, npts in enumerate([1, 2, 3]):
+        for i, npts in enumerate([1, 2, rng.choice([3, 3, 4, 5])]):
             curves["c%d" % i] = random_pump_curve(rng, npts)
         nodes = [{"name": "R0", "type": "reservoir", "head": 20.0, "head_pattern": None},
                  {"name": "T0", "type": "tank", "elevation": 45.0, "init_level": 4.0, "min_level": 0.0, "max_level": 12.0, "diameter": 12.0},
